@@ -13,6 +13,7 @@ def client():
     t.packetizer = FakePacketizer([])
     t.active = True
     t.initial_kex_done = True
+    t.clear_to_send.set()          # the state after the first key exchange
     return t, a, b
 
 
